@@ -96,7 +96,9 @@ def check_copy_half(ck, max_turns=2):
 def relay_replay_plan(ob):
     f = ob.finding
     if f is not None and ob.label.startswith('C01/handover/'):
-        return 'relay', {'driver': 'handover', 'args': {}}, lambda o: o.get('handover_complete') is False
+        # early bytes on both sides, only behind the upstream's reply, only behind the client's request
+        cases = [{'driver': 'handover', 'args': {'client_early': c, 'server_early': v}} for c, v in ((True, True), (False, True), (True, False))]
+        return 'relay', cases, lambda o: o.get('handover_complete') is False
     if f is not None and (ob.target or '') == 'copy_half abort' and ob.label.startswith('C16/relay/byte-counter-never'):
         # the destination takes the first piece and goes away: the second piece is read from the source but cannot be delivered
         cases = [{'driver': 'copy_half', 'args': {'source': '68656c6c6f776f726c6421', 'pieces': [5, 6], 'buffer_size': 16, 'counted_before': 0, 'dst_closes_after': 5}},
